@@ -2656,12 +2656,36 @@ func _return(n *node) {
 		}
 	case 2:
 		v0, v1 := values[0], values[1]
+		if namedResults(def) {
+			// The second value may be the first result variable, set before it is read.
+			n.exec = func(f *frame) bltn {
+				r1 := copyValue(v1(f))
+				f.data[0].Set(v0(f))
+				f.data[1].Set(r1)
+				return nil
+			}
+			break
+		}
 		n.exec = func(f *frame) bltn {
 			f.data[0].Set(v0(f))
 			f.data[1].Set(v1(f))
 			return nil
 		}
 	default:
+		if namedResults(def) {
+			// The values may be result variables: read them all before setting the results.
+			n.exec = func(f *frame) bltn {
+				res := make([]reflect.Value, len(values))
+				for i, value := range values {
+					res[i] = copyValue(value(f))
+				}
+				for i, v := range res {
+					f.data[i].Set(v)
+				}
+				return nil
+			}
+			break
+		}
 		n.exec = func(f *frame) bltn {
 			for i, value := range values {
 				f.data[i].Set(value(f))
@@ -2669,6 +2693,15 @@ func _return(n *node) {
 			return nil
 		}
 	}
+}
+
+// namedResults returns true if the results of function def are named.
+func namedResults(def *node) bool {
+	if def == nil || def.kind != funcDecl && def.kind != funcLit || len(def.child[2].child) < 3 {
+		return false
+	}
+	res := def.child[2].child[2].child
+	return len(res) > 0 && len(res[0].child) > 1
 }
 
 func arrayLit(n *node) {
